@@ -12,6 +12,7 @@ ids are consistent (`SharedConsistent`, which C03 proves of resolve's trees).
 import PubgrubProofs.ReportSound
 import PubgrubProofs.TreeLink
 import PubgrubProofs.RangeAnyOrder2
+import PubgrubProofs.ReportCollapsed
 
 namespace Pubgrub.C08
 open Pubgrub
@@ -91,5 +92,57 @@ theorem C08_range_on_resolve_trees
   by apply range_C08_on_resolve_trees (P := P) (V := V) (M := M) (Pr := Pr) (E := E) <;> assumption
 
 end AnyOrder2
+
+/-! ### resolve's trees, before and after `collapse_no_versions`: every clause of C08 at once
+
+`ReportWellFormed U t` (PubgrubProofs/ReportCollapsed.lean) bundles: the report is produced; every step is
+entailed (over the universe `U` of versions) by the premises it cites; numbers are consecutive from 1 and
+at most one per line; every reference resolves to exactly one earlier line with the cited conclusion;
+every external fact is cited; the last step concludes the top node.  `collapse_no_versions` preserves
+"equal ids ⇒ equal subtrees" (`C08_collapse_sharedConsistent`). -/
+section OnResolveTrees
+variable {Pr E : Type} [DecidableEq V] [LE Pr] [DecidableLE Pr] [LawfulVersionSet S V]
+
+theorem C08_collapse_sharedConsistent (t t' : DerivationTree P S V M) (h : t.SharedConsistent)
+    (hc : t.collapseNoVersions = .ok t') : t'.SharedConsistent :=
+  collapse_sharedConsistent t t' h hc
+
+theorem C08_report_wellFormed_of (U : P → V → Prop) (t : DerivationTree P S V M) (hs : t.Sound U)
+    (hc : t.SharedConsistent) : ReportWellFormed U t :=
+  reportWellFormed_of U t hs hc
+
+theorem C08_on_resolve_trees_full (W : World P S V M) (hW : W.SetsValid) (debug : Bool) (fuel : Nat)
+    (root : P) (rv : V) (s : SolverState P S V M Pr) (tree : DerivationTree P S V M)
+    (h : Reachable (E := E) W debug fuel root rv (s, .noSolution tree)) :
+    ReportWellFormed (fun _ _ => True) tree :=
+  by apply noSolution_report_wellFormed (Pr := Pr) (E := E) <;> assumption
+
+theorem C08_on_collapsed_resolve_trees (W : World P S V M) (hW : W.SetsValid) (debug : Bool)
+    (fuel : Nat) (root : P) (rv : V) (s : SolverState P S V M Pr) (tree : DerivationTree P S V M)
+    (h : Reachable (E := E) W debug fuel root rv (s, .noSolution tree))
+    (t' : DerivationTree P S V M) (hc : tree.collapseNoVersions = .ok t') :
+    ReportWellFormed W.Exists t' :=
+  by apply noSolution_collapsed_report_wellFormed (Pr := Pr) (E := E) <;> assumption
+
+end OnResolveTrees
+
+section OnResolveTreesAnyOrder
+variable {P V M Pr E : Type} [DecidableEq P] [LinearOrder V] [LE Pr] [DecidableLE Pr]
+
+theorem C08_range_on_resolve_trees_full (W : World P (Range V) V M) (hW : W.RangesWF) (debug : Bool) (fuel : Nat)
+    (root : P) (rv : V) (s : SolverState P (Range V) V M Pr) (tree : DerivationTree P (Range V) V M)
+    (h : Reachable (E := E) W debug fuel root rv (s, .noSolution tree)) :
+    ReportWellFormed (fun _ _ => True) tree :=
+  by apply range_report_wellFormed (Pr := Pr) (E := E) <;> assumption
+
+theorem C08_range_on_collapsed_resolve_trees (W : World P (Range V) V M) (hW : W.RangesWF) (debug : Bool)
+    (fuel : Nat) (root : P) (rv : V) (s : SolverState P (Range V) V M Pr)
+    (tree : DerivationTree P (Range V) V M)
+    (h : Reachable (E := E) W debug fuel root rv (s, .noSolution tree))
+    (t' : DerivationTree P (Range V) V M) (hc : tree.collapseNoVersions = .ok t') :
+    ReportWellFormed W.Exists t' :=
+  by apply range_collapsed_report_wellFormed (Pr := Pr) (E := E) <;> assumption
+
+end OnResolveTreesAnyOrder
 
 end Pubgrub.C08
